@@ -268,3 +268,48 @@ def absence_guard(g, get_pattern):
     if re.match(get_pattern, c) and g.variant == "None":
         return True
     return False
+
+
+def return_carriers(body):
+    """locals whose value is handed to the return place by plain moves (`_0 = move _r`, transitively): after a helper has been
+    spliced in, its own return local is one of them — an `Err(..)` built there is the caller's failure exit"""
+    out = {0}
+    changed = True
+    while changed:
+        changed = False
+        for b in sorted(body.reachable()):
+            for st in body.blocks[b]["stmts"]:
+                if st.get("k") == "assign" and not st["p"].get("p") and st["p"]["l"] in out and st["rv"]["k"] == "use" \
+                        and st["rv"]["op"].get("k") in ("move", "copy") and not st["rv"]["op"]["p"].get("p"):
+                    src = st["rv"]["op"]["p"]["l"]
+                    if src not in out and src > body.arg_count:
+                        out.add(src)
+                        changed = True
+    return out
+
+
+def guard_cases(g):
+    """what a guard establishes when the tested value was first stored in a local (`let ok = match .. { Some(x) => !p(x), None => false };
+    if ok { .. }`): the feasible (condition, value) pairs over the alternatives of the tested expression.  A constant alternative
+    that contradicts the edge is infeasible and dropped; one that agrees makes the edge unconditional: (None, True)."""
+    from .trace import alternatives
+    out = []
+    if not isinstance(g.value, bool):
+        return [(g.cond, g.value)]
+    for a in alternatives(g.cond):
+        cond, value = a, g.value
+        changed = True
+        while changed:
+            changed = False
+            c = strip(cond)
+            if c[0] == "unop" and c[1] == "Not":
+                cond, value, changed = c[2], (not value), True
+            elif c[0] == "binop" and c[1] in _FLIP:
+                cond, value, changed = ("binop", _FLIP[c[1]], c[2], c[3]), (not value), True
+        c = strip(cond)
+        if c[0] == "const" and c[1] in ("true", "false"):
+            if (c[1] == "true") == value:
+                out.append((None, True))
+            continue
+        out.append((cond, value))
+    return out
